@@ -196,6 +196,197 @@ theorem starts_bounded_trace (cfg : Cfg) (hmax : 1 ≤ cfg.max) (ops : List Op) 
     simp only [serialsAsc, List.length_reverse, List.length_map]
     omega
 
+/-! ## construction paths, entry points, handles (every way the crate lets a caller get at a hedged call) -/
+
+/-- Whatever the entry point — `HedgeLayer::builder()` / `HedgeConfigBuilder::default()` with any argument of
+`max_hedged_attempts` (**0 included**: the documented clamp) or without calling it, `HedgeLayer::new(delay)`,
+`Hedge::new(inner, HedgeConfig::default())` — the configuration the call runs with has `max_hedged_attempts ≥ 1`:
+the hypothesis `1 ≤ cfg.max` of every theorem of this file is met by every configuration that can be built. -/
+theorem configured_max_ge_one (kv : Kv) : 1 ≤ (cfgOf kv).max := by
+  unfold cfgOf
+  dsimp only
+  split
+  · exact Nat.le_succ 1
+  · split
+    · exact Nat.le_succ 1
+    · exact Nat.le_max_right _ _
+
+/-- `max_hedged_attempts(n)`: at least the original request; `0` means `1`; any `n ≥ 1` is taken as it is. -/
+theorem clamp_spec (n : Nat) : 1 ≤ clampMax n ∧ clampMax 0 = 1 ∧ (1 ≤ n → clampMax n = n) :=
+  ⟨Nat.le_max_right _ _, rfl, fun h => Nat.max_eq_left h⟩
+
+/-- `max_hedged_attempts(0)` and `(1)` — no room for a hedge: the layer forwards the original request and nothing
+else. The call has at most one attempt; a response it resolves with is that attempt's; all-attempts-failed means
+that one attempt failed. -/
+theorem original_request_only (cfg : Cfg) (hm : cfg.max = 1) (ops : List Op) (c : Nat) (cl : Call)
+    (h : (c, cl) ∈ (run cfg ops).calls) :
+    cl.attempts.length ≤ 1 ∧
+    (∀ t v, cl.result = some (t, .ok v) → ∃ a, cl.attempts = [a] ∧ a.k = v ∧ a.out = .ok) ∧
+    (∀ t x y, cl.result = some (t, .allFailed x y) → ∃ a, cl.attempts = [a] ∧ isFail a.out = true) := by
+  have hmax : 1 ≤ cfg.max := by omega
+  have hb := starts_bounded cfg hmax ops c cl h
+  rw [hm] at hb
+  have one : ∀ a ∈ cl.attempts, cl.attempts = [a] := by
+    intro a ha
+    match hl : cl.attempts, ha, hb with
+    | [x], ha, _ => simp at ha; rw [ha]
+    | _ :: _ :: _, _, hb => simp at hb
+  refine ⟨hb, ?_, ?_⟩
+  · intro t v hr
+    obtain ⟨a, ha, hk, ho, _⟩ := first_success_wins cfg hmax ops c cl h t v hr
+    exact ⟨a, one a ha, hk, ho⟩
+  · intro t x y hr
+    obtain ⟨hlen, hall⟩ := all_failed_only_when_all_failed cfg hmax ops c cl h t x y hr
+    rw [hm] at hlen
+    match hl : cl.attempts, hlen with
+    | [a], _ =>
+      obtain ⟨_, _, _, hf⟩ := hall a (by rw [hl]; simp)
+      exact ⟨a, rfl, hf⟩
+
+/-- `HedgeLayer::new(delay)` "will fire a single hedge request after the specified delay": at most two attempts; the
+hedge no earlier than `delay` after the original request (at the same instant iff `delay` is zero); none at all when
+`delay` is a duration no `Instant` can be moved by. -/
+theorem new_fires_a_single_hedge (d : Nat) (nev : Bool) (ops : List Op) (c : Nat) (cl : Call)
+    (h : (c, cl) ∈ (run (newCfg d nev) ops).calls) :
+    cl.attempts.length ≤ 2 ∧
+    (1 < cl.attempts.length →
+      if d = 0 then (startsAsc cl).getD 1 0 = (startsAsc cl).getD 0 0
+      else (startsAsc cl).getD 0 0 * 1000 + d ≤ (startsAsc cl).getD 1 0 * 1000) ∧
+    (d ≠ 0 → nev = true → cl.attempts.length ≤ 1) :=
+  ⟨starts_bounded (newCfg d nev) (Nat.le_succ 1) ops c cl h,
+   fun hn => starts_spaced_indexed (newCfg d nev) (Nat.le_succ 1) ops c cl h 0 hn,
+   fun hd hv => never_due_not_started (newCfg d nev) (Nat.le_succ 1) ops c cl h hd 1 (Nat.le_refl 1) hv⟩
+
+/-- The default configuration (`HedgeLayer::builder().build()`, `HedgeConfigBuilder::default().build()`,
+`Hedge::new(inner, HedgeConfig::default())`): the original request and at most one hedge, a full second later. -/
+theorem default_config_one_hedge_after_a_second (ops : List Op) (c : Nat) (cl : Call)
+    (h : (c, cl) ∈ (run defaultCfg ops).calls) :
+    cl.attempts.length ≤ 2 ∧
+    (1 < cl.attempts.length → (startsAsc cl).getD 0 0 * 1000 + 1000000 ≤ (startsAsc cl).getD 1 0 * 1000) :=
+  ⟨starts_bounded defaultCfg (Nat.le_succ 1) ops c cl h,
+   fun hn => starts_spaced_indexed defaultCfg (Nat.le_succ 1) ops c cl h 0 hn⟩
+
+/-- A `Hedge` service keeps nothing between calls, so which service of the layer, which clone, which (re)used handle
+a request is made on cannot matter — the model does not even record it — and requests do not influence each other:
+an arrival, a poll or a cancellation of request `c`, or a request refused for a readiness error, leaves the record of
+every **other** request exactly as it was (from any state, not only reachable ones). Time is the only thing
+requests share. (Several services built from one layer value, a clone of the layer, a handle used call after call,
+a clone taken after a call: all are instances of this.) -/
+theorem requests_are_independent (cfg : Cfg) (s : State) (c c' : Nat) (hne : c' ≠ c) :
+    lookup (stepS cfg s (.poll c)).calls c' = lookup s.calls c' ∧
+    lookup (stepS cfg s (.drop c)).calls c' = lookup s.calls c' ∧
+    (∀ k v, (stepS cfg s (.refused c k v)).calls = s.calls) ∧
+    (∀ plan warm cl', lookup s.calls c' = some cl' → lookup (stepS cfg s (.arrive c plan warm)).calls c' = some cl') := by
+  refine ⟨?_, ?_, fun _ _ => rfl, ?_⟩
+  · show lookup (pollS cfg s c).calls c' = _
+    unfold pollS
+    split
+    · rfl
+    · show lookup (setCall s.calls c _) c' = _
+      rw [lookup_setCall, if_neg hne]
+  · show lookup (dropS s c).calls c' = _
+    unfold dropS
+    split
+    · rfl
+    · show lookup (setCall s.calls c _) c' = _
+      rw [lookup_setCall, if_neg hne]
+  · intro plan warm cl' hl
+    show lookup (arriveS s c plan warm).calls c' = _
+    unfold arriveS
+    split
+    · exact hl
+    · exact lookup_append_some hl _
+
+/-- In latency mode a poll starts **every** hedge whose delay has elapsed: when a polled call is still waiting
+afterwards, either all `max_hedged_attempts` attempts exist, or the timer for the next one has not elapsed yet, or
+it is one that never elapses. In particular a **zero** delay for a later hedge (`delay_fn` with a positive first
+delay and `Duration::ZERO` further on) starts that hedge in the same poll as its predecessor — it does not end the
+hedging, and the call cannot report all-attempts-failed short of `max_hedged_attempts` attempts
+(`all_failed_only_when_all_failed`). From any state. -/
+theorem due_hedges_are_started (cfg : Cfg) (s : State) (c : Nat) (cl cl' : Call)
+    (h : lookup s.calls c = some cl) (hp : cl.phase = .latency)
+    (h' : lookup (stepS cfg s (.poll c)).calls c = some cl') (hp' : cl'.phase = .latency) :
+    cfg.max ≤ cl'.attempts.length ∨ s.now < cl'.nextHedgeAt ∨ cfg.never cl'.attempts.length = true := by
+  have hcl' : cl' = (pollCall cfg s.now c { cl := cl, serial := s.serial }).cl := by
+    have : lookup (pollS cfg s c).calls c = some cl' := h'
+    unfold pollS at this
+    rw [h] at this
+    have h2 : lookup (setCall s.calls c (pollCall cfg s.now c { cl := cl, serial := s.serial }).cl) c = some cl' := this
+    rw [lookup_setCall, if_pos rfl, h] at h2
+    simpa using h2.symm
+  have hnd := pollCall_no_due cfg s.now c { cl := cl, serial := s.serial } hp (by rw [← hcl']; exact hp')
+  rw [← hcl'] at hnd
+  unfold HedgeDue at hnd
+  by_cases h1 : cl'.attempts.length < cfg.max
+  · by_cases h2 : cl'.nextHedgeAt ≤ s.now
+    · right; right
+      cases hv : cfg.never cl'.attempts.length with
+      | true => rfl
+      | false => exact absurd ⟨h1, h2, hv⟩ hnd
+    · right; left; omega
+  · left; omega
+
+/-- What a caller reads off an error through `HedgeError`'s accessors, for each result a request can get:
+all-attempts-failed is `is_all_attempts_failed()` and not `is_inner()`, the answer to a failed readiness poll
+(`HedgeError::Inner`) the other way round; `inner()` and `into_inner()` both give the error carried; a response and
+a panic are no `HedgeError` at all. -/
+theorem accessors_spec :
+    (∀ k v, accessors (.allFailed k v) = some ⟨true, false, (k, v), (k, v)⟩) ∧
+    (∀ k v, accessors (.inner k v) = some ⟨false, true, (k, v), (k, v)⟩) ∧
+    (∀ v, accessors (.ok v) = none) ∧ accessors .panic = none ∧
+    (∀ r a, accessors r = some a → a.into = a.ref ∧ a.allFailed = !a.isInner) := by
+  refine ⟨fun _ _ => rfl, fun _ _ => rfl, fun _ => rfl, rfl, ?_⟩
+  intro r a h
+  cases r with
+  | allFailed k v =>
+    have h' : some (Acc.mk true false (k, v) (k, v)) = some a := h
+    cases h'; exact ⟨rfl, rfl⟩
+  | inner k v =>
+    have h' : some (Acc.mk false true (k, v) (k, v)) = some a := h
+    cases h'; exact ⟨rfl, rfl⟩
+  | _ =>
+    have h' : (none : Option Acc) = some a := h
+    cases h'
+
+/-- The accessors of the error a **call** resolves with: it is never `is_inner()` (`HedgeError::Inner` is only ever
+the answer to a readiness poll — a call resolves with a response, all-attempts-failed, or the drain phase's panic),
+and `is_all_attempts_failed()` is true only when every attempt the call can start has been started and has failed. -/
+theorem is_all_attempts_failed_sound (cfg : Cfg) (hmax : 1 ≤ cfg.max) (ops : List Op) (c : Nat) (cl : Call)
+    (h : (c, cl) ∈ (run cfg ops).calls) (t : Nat) (r : Res) (hr : cl.result = some (t, r)) :
+    (∀ k v, r ≠ .inner k v) ∧
+    ∀ a, accessors r = some a → a.isInner = false ∧ a.allFailed = true ∧
+      cl.attempts.length = cfg.max ∧ ∀ b ∈ cl.attempts, ∃ tf, b.fin = some tf ∧ tf ≤ t ∧ isFail b.out = true := by
+  have hi := (inv_reachable cfg hmax ops _ h).rs
+  have hp : cl.phase = .done := by
+    apply Classical.byContradiction; intro hn
+    rw [hi.noRes hn] at hr; cases hr
+  obtain ⟨t', r', h1, _, _, h4⟩ := hi.res hp
+  rw [hr] at h1; cases h1
+  cases r with
+  | allFailed x y =>
+    refine ⟨fun _ _ e => Res.noConfusion e, ?_⟩
+    intro a ha
+    have ha' : some (Acc.mk true false (x, y) (x, y)) = some a := ha
+    cases ha'
+    exact ⟨rfl, rfl, h4⟩
+  | ok v =>
+    refine ⟨fun _ _ e => Res.noConfusion e, fun a ha => ?_⟩
+    have ha' : (none : Option Acc) = some a := ha
+    cases ha'
+  | panic =>
+    refine ⟨fun _ _ e => Res.noConfusion e, fun a ha => ?_⟩
+    have ha' : (none : Option Acc) = some a := ha
+    cases ha'
+  | _ => exact False.elim h4
+
+/-- A request whose handle fails its readiness poll gets exactly that error, as `HedgeError::Inner`, and no call
+exists for it: nothing is started on its behalf, every other request's record is untouched, time does not move. -/
+theorem refused_is_inner_error (cfg : Cfg) (s : State) (c k v : Nat) :
+    (stepS cfg s (.refused c k v)).log = s.log ++ [.result c (.inner k v)] ∧
+    (stepS cfg s (.refused c k v)).calls = s.calls ∧ (stepS cfg s (.refused c k v)).now = s.now ∧
+    (stepS cfg s (.refused c k v)).serial = s.serial :=
+  ⟨rfl, rfl, rfl, rfl⟩
+
 /-! ## non-vacuity: concrete histories -/
 
 /-- fixed delay of `d` milliseconds -/
@@ -253,7 +444,7 @@ example :
 primary's success is queued at 30 ms while the clone is still warming up, and the poll at 30 ms
 resolves the call with it; the clone becomes ready at 60 ms and the detached task calls then. -/
 example :
-    let ops := [Op.arrive 1 [⟨30, .ok⟩, ⟨5, .ok⟩] [some 50], .poll 1, .adv 10 [], .poll 1, .adv 20 [0]]
+    let ops := [Op.arrive 1 [⟨30, .ok⟩, ⟨5, .ok⟩] [.after 50], .poll 1, .adv 10 [], .poll 1, .adv 20 [0]]
     (lookup (run (fixed 2 10) ops).calls 1).map
         (fun cl => (live cl.phase, cl.attempts.map (fun a => (a.idx, a.startAt, a.wait)), cl.chan.map (·.k)))
       = some (true, [(1, 10, .till 60), (0, 0, .no)], [0]) ∧
@@ -264,7 +455,7 @@ example :
 20 ms for its clone, hedge 2's clone is ready at once, so attempt 2 makes the second inner call
 (serial 1, second script step) and attempt 1 the third. -/
 example :
-    let ops := [Op.arrive 1 [⟨100, .ok⟩, ⟨7, .err 1⟩, ⟨3, .ok⟩] [some 20, some 0], .poll 1, .adv 10 [], .poll 1,
+    let ops := [Op.arrive 1 [⟨100, .ok⟩, ⟨7, .err 1⟩, ⟨3, .ok⟩] [.after 20, .after 0], .poll 1, .adv 10 [], .poll 1,
                 .adv 10 [], .poll 1, .adv 10 [.done 1, .rdy 1 1]]
     (lookup (run (fixed 3 10) ops).calls 1).map (fun cl => cl.attempts.map (fun a => (a.idx, a.k, a.startAt, a.out)))
       = some [(2, 1, 20, .err 1), (1, 2, 10, .ok), (0, 0, 0, .ok)] := by decide
@@ -288,5 +479,65 @@ example :
     let cfg : Cfg := { max := 3, delay := fun n => if n = 1 then 0 else (2 ^ 64 - 1) * 1000000 + 999999,
                        never := fun n => n ≠ 1 }
     (lookup (run cfg [Op.arrive 1 [⟨5, .ok⟩], .poll 1]).calls 1).map (fun cl => starts cl) = some [0, 0, 0] := by decide
+
+/-- `max_hedged_attempts(0)`: the header value 0 is clamped — one attempt, the original request, whose response is
+the call's; `HedgeLayer::new(20 ms)`: two attempts 20 ms apart; the default configuration: the hedge a second later. -/
+example :
+    clampMax 0 = 1 ∧
+    (lookup (run { max := clampMax 0, delay := fun _ => 10000 } [Op.arrive 1 [⟨30, .ok⟩], .poll 1, .adv 30 [0], .poll 1]).calls 1).map
+        (fun cl => (cl.result, starts cl)) = some (some (30, .ok 0), [0]) ∧
+    (lookup (run (newCfg 20000) [Op.arrive 1 [⟨30, .ok⟩, ⟨5, .ok⟩], .poll 1, .adv 20 [], .poll 1, .adv 5 [1], .poll 1]).calls 1).map
+        (fun cl => (cl.result, starts cl)) = some (some (25, .ok 1), [20, 0]) ∧
+    (lookup (run defaultCfg [Op.arrive 1 [⟨3000, .ok⟩], .poll 1, .adv 999 [], .poll 1, .adv 1 [], .poll 1]).calls 1).map
+        (fun cl => starts cl) = some [1000, 0] := by decide
+
+/-- Parallel mode with mixed outcomes (two attempts at once, one fails at once, the other succeeds at 50 ms): the call
+keeps waiting after the failure and resolves with the success — all-attempts-failed needs every attempt to have failed. -/
+example :
+    let ops := [Op.arrive 1 [⟨0, .err 1⟩, ⟨50, .ok⟩], .poll 1, .poll 1]
+    (lookup (run (fixed 2 0) ops).calls 1).map (fun cl => (cl.phase, cl.result)) = some (.drain, none) ∧
+    (lookup (run (fixed 2 0) (ops ++ [.adv 50 [1], .poll 1])).calls 1).map (·.result) = some (some (50, .ok 1)) := by
+  decide
+
+/-- A zero delay for a later hedge after a positive first one (`delay_fn`: 10 ms, then zero; 3 attempts, all failing):
+the poll at 10 ms starts attempts 1 **and** 2, and all-attempts-failed comes only after the third failure. -/
+example :
+    let cfg : Cfg := { max := 3, delay := fun n => if n = 1 then 10000 else 0 }
+    let ops := [Op.arrive 1 [⟨5, .err 1⟩, ⟨5, .err 2⟩, ⟨30, .err 3⟩], .poll 1, .adv 5 [0], .poll 1, .adv 5 [], .poll 1]
+    (lookup (run cfg ops).calls 1).map (fun cl => (cl.phase, starts cl)) = some (.latency, [10, 10, 0]) ∧
+    (lookup (run cfg (ops ++ [.adv 5 [1], .poll 1])).calls 1).map (·.result) = some none ∧
+    (lookup (run cfg (ops ++ [.adv 5 [1], .poll 1, .adv 25 [2], .poll 1])).calls 1).map (·.result)
+      = some (some (40, .allFailed 1 0)) := by decide
+
+/-- everything of a request's record a step can change -/
+def view (cl : Call) := ((cl.phase, cl.attempts, cl.chan), (cl.errors, cl.nextHedgeAt), cl.result)
+
+set_option synthInstance.maxSize 1024 in
+/-- Two requests (on whatever handles): polling and cancelling one leaves the other's record as it was; a request
+refused for a readiness error has no record at all and reads as `is_inner()`. -/
+example :
+    let ops := [Op.arrive 1 [⟨30, .ok⟩, ⟨5, .ok⟩], .arrive 2 [⟨7, .err 1⟩, ⟨7, .err 2⟩], .poll 1, .poll 2]
+    (lookup (run (fixed 2 10) (ops ++ [.poll 2, .drop 2, .refused 3 9 0])).calls 1).map view
+      = (lookup (run (fixed 2 10) ops).calls 1).map view ∧
+    (lookup (run (fixed 2 10) (ops ++ [.refused 3 9 0])).calls 3).map view = none ∧
+    (accessors (.inner 9 0)).map (fun a => (a.allFailed, a.isInner, a.ref, a.into)) = some (false, true, (9, 0), (9, 0)) := by
+  decide
+
+set_option synthInstance.maxSize 1024 in
+/-- A hedge whose fresh clone fails its readiness poll is an attempt that was started and has failed, without an
+inner call: delay 10 ms, 2 attempts, the hedge's clone answers `Err` at 10 ms, the primary is still running — the call
+keeps waiting (one error of two) and resolves with the primary's response at 30 ms; had the primary failed too,
+all-attempts-failed (carrying the primary's error) would have come at that instant and not before. The log has one
+`inner_call` only. -/
+example :
+    let ops := [Op.arrive 1 [⟨30, .ok⟩, ⟨5, .ok⟩] [.fail], .poll 1, .adv 10 [], .poll 1, .poll 1]
+    let ops' := [Op.arrive 1 [⟨30, .err 2⟩, ⟨5, .ok⟩] [.fail], .poll 1, .adv 10 [], .poll 1, .poll 1]
+    (lookup (run (fixed 2 10) ops).calls 1).map (fun cl => (cl.phase, cl.errors, starts cl, cl.result))
+      = some (.latency, 1, [10, 0], none) ∧
+    (lookup (run (fixed 2 10) (ops ++ [.adv 20 [0], .poll 1])).calls 1).map (·.result) = some (some (30, .ok 0)) ∧
+    (lookup (run (fixed 2 10) ops').calls 1).map (·.result) = some none ∧
+    (lookup (run (fixed 2 10) (ops' ++ [.adv 20 [0], .poll 1])).calls 1).map (·.result)
+      = some (some (30, .allFailed 2 0)) ∧
+    callsOf 1 (run (fixed 2 10) (ops ++ [.adv 20 [0], .poll 1])).log = [0] := by decide
 
 end TR.Props.C12
